@@ -349,6 +349,7 @@ func main() {
 		}
 	}
 	manifests(mine)
+	manifestPairs(mine)
 	bigManifests(mine)
 	envelopes(mine)
 	res.Finish()
@@ -398,6 +399,83 @@ func manifests(mine func() bool) {
 					}
 				}
 			}
+		}
+	}
+}
+
+// manifestPairs: one process writes many headers (a host serves every receiver that joins, a
+// receiver may fetch several snapshots), so the round trip must also hold for a header that
+// follows another one. A base manifest of three items and every variant that differs from it in
+// exactly one field (header fields, each field of the first, middle and last item, the middle
+// item dropped, no items at all with two roots) are written in every ordered pair, each on a
+// stream of its own, and both must come back as written.
+func manifestPairs(mine func() bool) {
+	base := func() manifest.Manifest {
+		return manifest.Manifest{Root: "snap", TotalBytes: 60, FileCount: 3, FolderCount: 0, Items: []manifest.FileItem{
+			{RelPath: "a.bin", Size: 10, ModTime: 100, ID: "00000000000000a1"},
+			{RelPath: "m.bin", Size: 20, ModTime: 200, ID: "00000000000000b2"},
+			{RelPath: "z.bin", Size: 30, ModTime: 300, ID: "00000000000000c3"},
+		}}
+	}
+	type variant struct {
+		name string
+		m    manifest.Manifest
+	}
+	vs := []variant{{"base", base()}}
+	add := func(name string, f func(m *manifest.Manifest)) {
+		m := base()
+		f(&m)
+		vs = append(vs, variant{name, m})
+	}
+	add("root", func(m *manifest.Manifest) { m.Root = "snap2" })
+	add("total-bytes", func(m *manifest.Manifest) { m.TotalBytes = 61 })
+	add("file-count", func(m *manifest.Manifest) { m.FileCount = 4 })
+	add("folder-count", func(m *manifest.Manifest) { m.FolderCount = 1 })
+	for k, pos := range []string{"first", "middle", "last"} {
+		k := k
+		add(pos+".rel_path", func(m *manifest.Manifest) { m.Items[k].RelPath += "x" })
+		add(pos+".size", func(m *manifest.Manifest) { m.Items[k].Size++ })
+		add(pos+".mod_time", func(m *manifest.Manifest) { m.Items[k].ModTime++ })
+		add(pos+".is_dir", func(m *manifest.Manifest) { m.Items[k].IsDir = true })
+		add(pos+".id", func(m *manifest.Manifest) { m.Items[k].ID = "ffffffffffffff0" + fmt.Sprint(k) })
+	}
+	add("middle-sizes-swapped", func(m *manifest.Manifest) { m.Items[0].Size, m.Items[1].Size = 20, 10 })
+	add("middle-dropped", func(m *manifest.Manifest) { m.Items = []manifest.FileItem{m.Items[0], m.Items[2]} })
+	add("no-items", func(m *manifest.Manifest) { m.Items = nil; m.FileCount = 0; m.TotalBytes = 0 })
+	add("no-items-other-root", func(m *manifest.Manifest) { m.Items = nil; m.FileCount = 0; m.TotalBytes = 0; m.Root = "other" })
+	add("no-items-folders", func(m *manifest.Manifest) { m.Items = nil; m.FileCount = 0; m.TotalBytes = 0; m.FolderCount = 2 })
+	roundTrip := func(v variant, after string) {
+		var s mem
+		if err := transfer.VerifWriteControlHeader(&s, v.m); err != nil {
+			return
+		}
+		s.WriteByte(sentinel)
+		sig := func(f string) map[string]any {
+			return map[string]any{"record": "manifest-header", "field": f, "class": "after-another-header", "seq": true}
+		}
+		got, err := transfer.VerifReadControlHeader(&s)
+		if err != nil {
+			res.Violate("mismatch", "c18/roundtrip", sig("decode-error"), fmt.Sprintf("manifest %q written after %q: %v", v.name, after, err), nil)
+			return
+		}
+		if ok, field := eqRecord(v.m, got); !ok {
+			res.Violate("mismatch", "c18/roundtrip", sig(field), fmt.Sprintf("manifest header %q written after %q: wrote %s, read %s", v.name, after, brief(v.m), brief(got)), nil)
+			return
+		}
+		if rest := s.Bytes(); len(rest) != 1 || rest[0] != sentinel {
+			res.Violate("mismatch", "c18/roundtrip", sig("framing"), fmt.Sprintf("%d bytes remain after manifest header %q written after %q", len(rest), v.name, after), nil)
+		}
+	}
+	for i, a := range vs {
+		for j, b := range vs {
+			if !mine() {
+				continue
+			}
+			res.Eval()
+			res.Nontrivial(fmt.Sprint("MP|", i, j))
+			roundTrip(a, "(whatever came before)")
+			roundTrip(b, a.name)
+			roundTrip(a, b.name)
 		}
 	}
 }
